@@ -91,6 +91,7 @@ type rewriter struct {
 	fset    *token.FileSet
 	info    *types.Info
 	changed bool
+	knob    bool // a knob constant was replaced (file rewritten, but simrt is not necessarily used)
 	inComm  map[ast.Node]bool // comm statements of select clauses (and their sub-exprs we must not rewrite)
 }
 
@@ -439,7 +440,7 @@ func (r *rewriter) apply(f *ast.File) {
 				if v, ok := knobs[name.Name]; ok && i < len(n.Values) {
 					if _, isConst := r.info.Defs[name].(*types.Const); isConst {
 						n.Values[i] = &ast.BasicLit{Kind: token.INT, Value: v}
-						r.changed = true
+						r.knob = true
 						stats["knob:"+name.Name]++
 					}
 				}
@@ -516,10 +517,12 @@ func main() {
 			}
 			r := &rewriter{fset: p.Fset, info: p.TypesInfo, inComm: map[ast.Node]bool{}}
 			r.apply(f)
-			if !r.changed {
+			if !r.changed && !r.knob {
 				continue
 			}
-			astutil.AddNamedImport(p.Fset, f, simrtName, simrtPath)
+			if r.changed {
+				astutil.AddNamedImport(p.Fset, f, simrtName, simrtPath)
+			}
 			used := map[types.Object]bool{}
 			ast.Inspect(f, func(n ast.Node) bool {
 				if id, ok := n.(*ast.Ident); ok {
